@@ -844,6 +844,50 @@ def untracked_dir_task(task):
         s.cleanup()
 
 
+def unborn_task(kind):
+    """HEAD resolves to no commit (a repository without commits, or an orphan branch after a real
+    checkpoint): an update without --id has nothing to record, so it must fail and leave the store
+    as it was."""
+    s = sc.Scratch("unborn")
+    try:
+        v = []
+        evals = 0
+        if kind == "no-commits":
+            r = sc.Repo(s, "r", TARGETS, commands={"a": {"build": "x"}, "b": {"build": "x"}}, init_git=False)
+            r.git("init", "-q", "-b", "main")
+            before = None
+        else:
+            real = Real(s)
+            r = real.r
+            up = r.mr("checkpoint", "update")
+            before = (up.json() or {}).get("checkpoint")
+            if up.code != 0 or before is None:
+                raise common.EngineError("checkpoint update failed on a normal repository")
+            r.git("checkout", "-q", "--orphan", "fresh")
+        for extra in ([], ["-p"]):
+            res = r.mr("checkpoint", "update", *extra)
+            evals += 1
+            if res.code == 0:
+                v.append(("update-recorded-wrong-id", "[%s] checkpoint update %s while HEAD resolves to no commit exited 0 and printed %s" % (kind, extra, res.out[:200])))
+            sh = r.mr("checkpoint", "show")
+            got = (sh.json() or {}).get("checkpoint") if sh.code == 0 else None
+            if got != before:
+                v.append(("show-differs-from-last-update", "[%s] after a checkpoint update %s that cannot resolve HEAD, show prints %s; the last successful update printed %s" % (kind, extra, got, before)))
+        if before is None:
+            doc = r.mr("analyze").json()
+            evals += 1
+            if doc is None or doc.get("checkpointed") is not False or doc.get("targets") != ALL_TARGETS:
+                v.append(("no-checkpoint-not-everything-changed", "[%s] analyze printed %s" % (kind, doc)))
+        return {"violations": [{"sig": sig, "detail": d, "rank": 60, "case": {"unborn_case": kind}} for sig, d in v],
+                "evals": evals, "obs": None, "nontrivial": 1}
+    except common.EngineError as e:
+        return {"engine_error": "%s (unborn HEAD, %s)" % (e, kind)}
+    except Exception:
+        return {"engine_error": "unborn HEAD %s: %s" % (kind, traceback.format_exc()[-1200:])}
+    finally:
+        s.cleanup()
+
+
 def inv_c05(model, real, tier):
     v = []
     r = real.r
@@ -912,7 +956,7 @@ def state_task(task):
 RULES = {
     "C02": "plus wholly untracked directories (5 places: inside a target, nested three deep, name with a space / non-ASCII, outside every target) whose files must be listed one by one; plus 9 sequences with surroundings outside the model (records of earlier successful / failed runs on disk, a log tail listener attached); plus an odd-file-name family (18 names: leading/trailing spaces, tab, newline, quote, backslash, non-ASCII, 200 characters, leading dash, glob characters), each untracked and tracked-modified; plus a many-pending-paths family (1..40 paths in quick, up to 600 in thorough, of mixed sizes, untracked / staged / modified / deleted at once); plus the size family of C07 judged on the reported change list (a pending file edited beyond a buffer/read boundary must be listed, restored content must be filtered); explicit-state BFS over operation sequences {write(p,c), delete(p), mv, git mv, add -A, commit, checkpoint update [-p] [--id k], checkpoint delete, out delete --all} on paths {a/f.txt, 'b/n e-acute.txt', b/m.txt}; state = (commits, index, worktree, checkpoint) with commit ids canonicalised to indices; each new state is materialised in a real repository (real git, real monorail) and, when a checkpoint exists, `analyze --changes` for the default range, every ordered pair of commits as --begin/--end, and every commit as --begin alone (.. working tree) and as --end alone (checkpoint ..) must equal the statement's set (content differs from base, plus untracked, minus pending-checksum matches), verbatim and sorted",
     "C07": "plus wholly untracked directories (5 places) pending at update -p: a new file, a changed file and a new file in a subdirectory must each re-flag; plus 9 sequences with surroundings outside the model (records of earlier successful / failed runs on disk, a log tail listener attached); plus an odd-file-name family (18 names: leading/trailing spaces, tab, newline, quote, backslash, non-ASCII, 200 characters, leading dash, glob characters), each untracked and tracked-modified; plus a many-pending-paths family (1..40 paths in quick, up to 600 in thorough, of mixed sizes, untracked / staged / modified / deleted at once); plus the update-pair family of C19 judged on `analyze` after the second update -p; plus a size family: a pending file (untracked / modified / staged) of each size around the checksum buffer and read boundaries (65535..65537, 200000, 2 MiB+1; thorough more) must be clean after update -p and re-flagged by a one-byte edit at each boundary offset, an append and a truncation; same BFS; in every state reached by `checkpoint update -p`: analyze reports no targets and run starts nothing; then from that state every single later edit (fresh content for each path, new files, deletion of committed files; thorough: every pair) must re-flag exactly the targets of the edited paths, and a second update -p must clear them",
-    "C19": "plus 9 sequences with surroundings outside the model (records of earlier successful / failed runs on disk, a log tail listener attached); plus a many-pending-paths family (1..40 paths in quick, up to 600 in thorough, of mixed sizes, untracked / staged / modified / deleted at once); plus an update-pair family: worktree set to pending configuration S1 (each of a/f.txt, b/m.txt, a/g.txt absent or with one of two contents), `update -p`, worktree set to S2, second update (-p or plain) for every pair (S1,S2) (quick: at most two pending paths each): show must equal what the second update printed; same BFS; from every state (quick: every state whose last operation touched the store) a suffix probe update, update -p, delete: show follows each update and afterwards no checkpoint exists; in every state `checkpoint show` must equal what the last successful update printed (or fail when deleted / never set); updates must record HEAD or the given --id; without a checkpoint analyze reports checkpointed=false with every target and run covers every target",
+    "C19": "plus HEAD resolving to no commit (repository without commits; orphan branch after a real checkpoint): update must fail and leave the store as it was; plus 9 sequences with surroundings outside the model (records of earlier successful / failed runs on disk, a log tail listener attached); plus a many-pending-paths family (1..40 paths in quick, up to 600 in thorough, of mixed sizes, untracked / staged / modified / deleted at once); plus an update-pair family: worktree set to pending configuration S1 (each of a/f.txt, b/m.txt, a/g.txt absent or with one of two contents), `update -p`, worktree set to S2, second update (-p or plain) for every pair (S1,S2) (quick: at most two pending paths each): show must equal what the second update printed; same BFS; from every state (quick: every state whose last operation touched the store) a suffix probe update, update -p, delete: show follows each update and afterwards no checkpoint exists; in every state `checkpoint show` must equal what the last successful update printed (or fail when deleted / never set); updates must record HEAD or the given --id; without a checkpoint analyze reports checkpointed=false with every target and run covers every target",
     "C05": "plus 9 sequences with surroundings outside the model (records of earlier successful / failed runs on disk, a log tail listener attached); same BFS (part B of C05): in every state `analyze --target-groups` then `run -c build` in trace mode must agree on groups and started targets",
 }
 
@@ -988,6 +1032,13 @@ def bfs(prop, tier, depth, wall_cap=None):
             agg["distinct_nontrivial"] += r["nontrivial"]
             agg["violations"].extend(r["violations"])
         agg["update_pair_cases"] = len(tasks)
+    if prop == "C19":
+        for r in common.pmap(unborn_task, ["no-commits", "orphan-branch"]):
+            if "engine_error" in r:
+                raise common.EngineError(r["engine_error"])
+            agg["evaluations"] += r["evals"]
+            agg["violations"].extend(r["violations"])
+        agg["unborn_head_cases"] = 2
     if prop in ("C07", "C19", "C02", "C05"):
         # the same invariants under a custom, nested output directory whose name contains a space
         seqs = [[], [["CPU"]], [["CPUP"]], [["W", "b/m.txt", "1"], ["CPUP"]], [["CPU"], ["CPD"]], [["CPUP"], ["OUTD"]],
@@ -1073,6 +1124,18 @@ def run(prop, tier):
 
 def replay(prop, path):
     body = json.load(open(path))
+    if "unborn_case" in body["case"]:
+        r1 = unborn_task(body["case"]["unborn_case"])
+        if "engine_error" in r1:
+            print("ENGINE:", r1["engine_error"])
+            return 2
+        for v in r1["violations"]:
+            print("REPLAY property=%s still violates: [%s] %s" % (prop, v["sig"], v["detail"][:400]))
+        if r1["violations"]:
+            print("VIOLATION property=%s replay=%s" % (prop, path))
+            return 1
+        print("REPLAY property=%s: case passes on the current tree" % prop)
+        return 0
     if "many_case" in body["case"] or "name_case" in body["case"] or "udir_case" in body["case"]:
         r1 = many_task(tuple(body["case"]["many_case"])) if "many_case" in body["case"] else name_task(tuple(body["case"]["name_case"])) if "name_case" in body["case"] else untracked_dir_task(tuple(body["case"]["udir_case"]))
         if "engine_error" in r1:
